@@ -141,6 +141,14 @@ where
     }
 }
 
+fn futures_noop() -> std::task::Waker {
+    struct N;
+    impl std::task::Wake for N {
+        fn wake(self: Arc<Self>) {}
+    }
+    std::task::Waker::from(Arc::new(N))
+}
+
 fn parse_perr(s: &str) -> Option<PErr> {
     // "PErr { serial: 3, req_id: 1, class: 2 })"
     let num = |key: &str| -> Option<u64> {
@@ -249,6 +257,12 @@ pub struct TCfg {
     variant: u64,
     /// per request: inner outcome ok?, latency us, payload
     reqs: Vec<(bool, u64, u64)>,
+    /// 0: one sequential client on one service value; k >= 2: k concurrent clients, each on its
+    /// own clone (taken from a base value that may already have been polled ready); 1: every
+    /// request goes through `clone().oneshot(req)`, all at once
+    clients: u32,
+    /// the base value was driven to readiness before the clones were taken
+    base_polled: bool,
 }
 
 pub fn targets() -> Vec<String> {
@@ -262,7 +276,8 @@ pub fn gen_t(rng: &mut Prng, index: usize) -> TCfg {
     let kind = kinds[(index / ts.len()) % kinds.len()];
     let n = rng.range(2, 8);
     let reqs = (0..n).map(|_| (rng.chance(0.6), *rng.pick(&[0u64, 0, 1000, 3000]), rng.next())).collect();
-    TCfg { target, kind, variant: rng.next(), reqs }
+    let clients = *rng.pick(&[0u32, 0, 0, 1, 2, 3]);
+    TCfg { target, kind, variant: rng.next(), reqs, clients, base_polled: rng.chance(0.5) }
 }
 
 pub fn scenario_t(sseed: u64, _tier: Tier) -> Report {
@@ -273,21 +288,76 @@ pub fn scenario_t(sseed: u64, _tier: Tier) -> Report {
         let mut svc = assemble(&w, &cfg.target, cfg.kind, cfg.variant);
         let reqs = cfg.reqs.clone();
         let w2 = w.clone();
-        // sequential client on one service value: ready -> call -> await, like ServiceExt::oneshot loops
-        let a = sim.actor(0, move || {
-            boxed(async move {
-                for (i, (ok, lat, payload)) in reqs.iter().enumerate() {
-                    let id = i as u64 + 1;
-                    // error class 2: never engages retry/fallback/reconnect in these configurations
-                    let mut req = Req::new(id, 0, vec![Step { lat: Lat::Us(*lat), out: if *ok { Out::Ok } else { Out::Err(2) } }]);
-                    req.payload = *payload;
-                    w2.log(Ev::Arrive { req: id });
-                    do_call(&w2, &mut svc, req, false, &|e: &Outcome| e.clone()).await;
-                }
-                w2.note("driver-done");
-            })
-        });
-        sim.start_at(0, a);
+        let mk = |i: usize, ok: bool, lat: u64, payload: u64| {
+            // error class 2: never engages retry/fallback/reconnect in these configurations
+            let mut req = Req::new(i as u64 + 1, 0, vec![Step { lat: Lat::Us(lat), out: if ok { Out::Ok } else { Out::Err(2) } }]);
+            req.payload = payload;
+            req
+        };
+        if cfg.clients == 0 {
+            // sequential client on one service value: ready -> call -> await, like ServiceExt::oneshot loops
+            let a = sim.actor(0, move || {
+                boxed(async move {
+                    for (i, (ok, lat, payload)) in reqs.iter().enumerate() {
+                        let req = mk(i, *ok, *lat, *payload);
+                        w2.log(Ev::Arrive { req: req.id });
+                        do_call(&w2, &mut svc, req, false, &|e: &Outcome| e.clone()).await;
+                    }
+                    w2.note("driver-done");
+                })
+            });
+            sim.start_at(0, a);
+        } else {
+            // concurrent clients on clones of one base value
+            let k = cfg.clients.max(1) as usize;
+            let base_polled = cfg.base_polled && !matches!(cfg.kind, InnerKind::ProbeReadyErr);
+            let oneshot = cfg.clients == 1;
+            let n_actors = if oneshot { reqs.len() } else { k };
+            let base = Arc::new(std::sync::Mutex::new(Some(svc)));
+            let done = Arc::new(AtomicU64::new(0));
+            for c in 0..n_actors {
+                let (w2, reqs, base, done) = (w2.clone(), reqs.clone(), base.clone(), done.clone());
+                let a = sim.actor(c as u64, move || {
+                    boxed(async move {
+                        let mut mine = {
+                            let mut g = base.lock().unwrap();
+                            let b = g.as_mut().expect("base");
+                            if base_polled && c == 0 {
+                                // legal: poll a value to readiness and then clone it; the clones must
+                                // observe readiness themselves
+                                let waker = futures_noop();
+                                let mut cx = std::task::Context::from_waker(&waker);
+                                let _ = b.poll_ready(&mut cx);
+                            }
+                            b.clone()
+                        };
+                        for (i, (ok, lat, payload)) in reqs.iter().enumerate() {
+                            let takes = if oneshot { i == c } else { i % n_actors == c };
+                            if !takes {
+                                continue;
+                            }
+                            let req = mk(i, *ok, *lat, *payload);
+                            w2.log(Ev::Arrive { req: req.id });
+                            if oneshot {
+                                let id = req.id;
+                                let out = mine.clone().oneshot(req).await;
+                                let o = match out {
+                                    Ok(r) => Outcome::ok(&r),
+                                    Err(e) => e,
+                                };
+                                w2.log(Ev::Resolve { req: id, out: o });
+                            } else {
+                                do_call(&w2, &mut mine, req, false, &|e: &Outcome| e.clone()).await;
+                            }
+                        }
+                        if done.fetch_add(1, Ordering::SeqCst) + 1 == n_actors as u64 {
+                            w2.note("driver-done");
+                        }
+                    })
+                });
+                sim.start_at(0, a);
+            }
+        }
         sim.horizon = 120_000_000;
         sim.poll_cap = 400_000;
         if sim.p_yield == 0.0 {
@@ -305,6 +375,7 @@ pub fn scenario_t(sseed: u64, _tier: Tier) -> Report {
     for r in &cfg.reqs {
         s.add(r.0 as u64 * 7 + r.1);
     }
+    s.add(cfg.clients as u64 * 2 + cfg.base_polled as u64);
     rep.sig = s.0;
     rep.case = json!({"cfg": format!("{cfg:?}")});
     rep.log = log;
@@ -333,7 +404,7 @@ pub fn judge_t(cfg: &TCfg, log: &[Rec]) -> Report {
                 inner_ready_since_arrive.clear();
             }
             Ev::InnerReady { res, .. } => inner_ready_since_arrive.push(*res),
-            Ev::OuterReady { req, ok } => {
+            Ev::OuterReady { req, ok } if cfg.clients == 0 => {
                 if *ok {
                     let need_pending = match cfg.kind {
                         InnerKind::ProbePending(k) => k as usize,
@@ -386,6 +457,7 @@ pub fn judge_t(cfg: &TCfg, log: &[Rec]) -> Report {
             // readiness errors surface as readiness errors, under the pass-through variant
             match out {
                 Outcome::Inner { class: 5, .. } if !enters.contains_key(&id) => {}
+                // Buffer-like sharing is not involved here, every clone fails its own readiness
                 other => rep.violate(format!("C20:readiness:{t}:readiness-error-not-passed-through"), format!("r{id}: inner poll_ready failed with class 5; caller saw {} (inner calls: {})", other.short(), enters.get(&id).map(|v| v.len()).unwrap_or(0))),
             }
             continue;
@@ -406,6 +478,7 @@ pub fn judge_t(cfg: &TCfg, log: &[Rec]) -> Report {
     }
     rep.count("requests", cfg.reqs.len() as u64);
     rep.bucket(format!("{t} over {kind}"));
+    rep.bucket(match cfg.clients { 0 => "client:sequential".to_string(), 1 => "client:oneshot-on-clones".to_string(), k => format!("client:{k}-concurrent-clones") });
     rep.nontrivial = !resolved.is_empty();
     rep
 }
